@@ -752,7 +752,8 @@ pub fn run_case(u: &Universe, cfg: &CaseCfg) -> Result<CaseInfo, CaseFail> {
                     }
                     let ix = cands[pick(c, cands.len())];
                     info.late_spawns += 1;
-                    let path = vec![9000 + info.late_spawns as u16];
+                    // (a path no program node can have: node ids stay below 65 535)
+                    let path = vec![u16::MAX, info.late_spawns as u16];
                     sink.push(Tr::LateSpawn(ix, path.clone(), body.clone()));
                     host.late_spawn(ix, path, body.clone());
                     host.send(Event::Noop)?
